@@ -35,6 +35,23 @@ pub struct Call {
     lat: u64,
     #[aggregate(strategy = KeepLast)]
     last: u64,
+    /// a float distribution whose inputs include NaNs of both signs, infinities and negative zero
+    /// (a function of `lat`, so that the two distributions of an aggregate can be compared)
+    #[aggregate(strategy = Histogram<f64, SortAndMerge>)]
+    ratio: f64,
+}
+
+/// the float recorded next to the input with this id; NaNs (of either sign) are to be dropped,
+/// everything else is kept
+fn ratio_of(id: u64) -> f64 {
+    match id % 41 {
+        3 => f64::NAN,
+        4 => -f64::NAN,
+        5 => f64::from_bits(0xfff8_0000_0000_0001), // another NaN with the sign bit set
+        6 => -0.0,
+        7 => f64::INFINITY,
+        _ => id as f64 * 0.5,
+    }
 }
 
 /// no-key variant for the embedded `Aggregate<T>` / `MutexSink<Aggregate<T>>`
@@ -76,7 +93,7 @@ struct Input {
 
 impl Input {
     fn call(&self) -> Call {
-        Call { endpoint: self.endpoint.clone(), shard: self.shard, bytes: self.bytes, lat: self.id, last: self.id }
+        Call { endpoint: self.endpoint.clone(), shard: self.shard, bytes: self.bytes, lat: self.id, last: self.id, ratio: ratio_of(self.id) }
     }
     fn key(&self) -> (String, u64) {
         (self.endpoint.clone(), self.shard as u64)
@@ -107,6 +124,7 @@ struct AggOut {
 
 fn parse(a: &Appended, prefix: &str) -> Result<AggOut, String> {
     let mut out = AggOut { key: None, bytes: None, lats: vec![], last: None, ticket: a.ticket };
+    let mut ratios: Option<Vec<f64>> = None;
     let mut endpoint = None;
     let mut shard = None;
     for op in &a.log {
@@ -129,6 +147,17 @@ fn parse(a: &Appended, prefix: &str) -> Result<AggOut, String> {
                     out.last = match obs.first() {
                         Some(Obs::U(u)) => Some(*u),
                         _ => return Err(format!("last not unsigned: {obs:?}")),
+                    }
+                }
+                (n, Val::Metric { obs, .. }) if n == format!("{prefix}ratio") => {
+                    let r = ratios.get_or_insert_with(Vec::new);
+                    for o in obs {
+                        match o {
+                            Obs::R { total, occ } => r.extend(std::iter::repeat_n(f64::from_bits(*total) / *occ as f64, *occ as usize)),
+                            Obs::U(u) => r.push(*u as f64),
+                            Obs::F(b) => r.push(f64::from_bits(*b)),
+                            Obs::Other => return Err("unknown observation".into()),
+                        }
                     }
                 }
                 (n, Val::Metric { obs, .. }) if n == format!("{prefix}lat") => {
@@ -157,6 +186,15 @@ fn parse(a: &Appended, prefix: &str) -> Result<AggOut, String> {
     }
     if let (Some(e), Some(s)) = (endpoint, shard) {
         out.key = Some((e, s));
+    }
+    // the float distribution must hold exactly the non-NaN floats of the inputs the integer
+    // distribution says were merged into this aggregate
+    if let Some(got) = ratios {
+        let mut expect: Vec<f64> = out.lats.iter().flat_map(|(id, n)| std::iter::repeat_n(ratio_of(*id), *n as usize)).filter(|v| !v.is_nan()).collect();
+        expect.sort_by(|a, b| a.partial_cmp(b).unwrap());
+        if got.iter().any(|v| v.is_nan()) || got.len() != expect.len() || got.iter().zip(&expect).any(|(a, b)| a != b) {
+            return Err(format!("ratio: the float distribution does not hold exactly the non-NaN inputs of this aggregate, ascending: {} values reported, {} expected; reported head {:?}, expected head {:?}", got.len(), expect.len(), &got[..got.len().min(6)], &expect[..expect.len().min(6)]));
+        }
     }
     Ok(out)
 }
@@ -224,7 +262,7 @@ fn parsed_snapshot(sink: &CountingSink, rep: &Report) -> Option<Vec<AggOut>> {
         match parse(&a, "") {
             Ok(o) => v.push(o),
             Err(e) => {
-                rep.violation("malformed-aggregate", json!({"error": e, "log": format!("{:?}", a.log)}));
+                rep.violation(if e.starts_with("ratio:") { "float-distribution-does-not-contain-exactly-the-non-nan-inputs" } else { "malformed-aggregate" }, json!({"error": e, "log": format!("{:?}", a.log).chars().take(3000).collect::<String>()}));
                 return None;
             }
         }
@@ -238,7 +276,7 @@ fn parsed(sink: &CountingSink, prefix: &str, rep: &Report) -> Option<Vec<AggOut>
         match parse(&a, prefix) {
             Ok(o) => v.push(o),
             Err(e) => {
-                rep.violation("malformed-aggregate", json!({"error": e, "log": format!("{:?}", a.log)}));
+                rep.violation(if e.starts_with("ratio:") { "float-distribution-does-not-contain-exactly-the-non-nan-inputs" } else { "malformed-aggregate" }, json!({"error": e, "log": format!("{:?}", a.log).chars().take(3000).collect::<String>()}));
                 return None;
             }
         }
